@@ -286,9 +286,12 @@ def catalogue(tier, rng, families=None, max_n=64, long_bch=False, rm5=False, all
                 H = [[1 if rng.random() < 0.4 else 0 for _ in range(n)] for _ in range(r_)]
                 if deficient and r_ >= 2:
                     # the dependent row is the last one or (every other size) the second one, so that the first n - k rows are not always a basis
-                    dep = r_ - 1 if idx % 2 == 0 or r_ < 3 else 1
-                    others = [i for i in range(r_) if i != dep][:2]
-                    H[dep] = [a ^ b for a, b in zip(H[others[0]], H[others[1]])]
+                    if r_ < 3:
+                        H[-1] = [a ^ b for a, b in zip(H[0], H[1])]
+                    else:
+                        dep = r_ - 1 if idx % 2 == 0 else 1
+                        others = [i for i in range(r_) if i != dep][:2]
+                        H[dep] = [a ^ b for a, b in zip(H[others[0]], H[others[1]])]
                 rows = [sum(b << j for j, b in enumerate(row)) for row in H]
                 rk = _rank(rows)
                 if all(any(col) for col in zip(*H)) and (rk == r_ if not deficient else rk == r_ - 1) and rk < n:
